@@ -97,7 +97,9 @@ def coq_build(targets, log):
         src = COQ + '/' + t[:-1]
         if t.startswith('Properties/') and os.path.exists(src):
             os.utime(src)  # recompile so that Print Assumptions output is captured
-    rc, out, dt = run(['make', '-k', '-j16'] + targets, cwd=COQ, timeout=3000)
+    # the extraction needs every Model/Spec file consistent with the regenerated tables
+    model_vo = sorted(f[len(COQ) + 1:] + 'o' for f in glob_files(COQ + '/Model', ('.v',)) + glob_files(COQ + '/Spec', ('.v',)))
+    rc, out, dt = run(['make', '-k', '-j16'] + targets + model_vo, cwd=COQ, timeout=3000)
     log['coq_make_s'] = round(dt, 1)
     failures = []
     for m in re.finditer(r'File "\./([^"]+)", line (\d+), characters [^\n]*\n(Error:?[^\n]*(?:\n(?!make|File|COQC)[^\n]*){0,12})', out):
